@@ -8,9 +8,15 @@ def openMachine (args : List String) (hin hout : IO.FS.Stream) : Option (IO Bool
   | "xbar" :: rest => (parseXbar rest).map fun c => serve (numBus c.n c.m (Crossbar.machine c)) hin hout
   | ["p2p"] => some (serve (numBus 1 1 P2P.machine) hin hout)
   | "socbus" :: rest => (parseSoc rest).map fun c => serve (numBus c.n c.m (SocBus.machine c)) hin hout
+  | "socglue" :: rest =>
+    match parseGlue rest with
+    | some (.built c) => some (serve (numBus c.n c.m (SocBus.machine c)) hin hout)
+    | _ => none
   | _ => none
 
-/-- `call topology <socbus args>` -> none|p2p|shared|crossbar ;
+/-- `call socglue <kind> <reg> <timeout> <dw> <aw> <op> …` -> rej <k> | finrej | ok <topology> <n> <origin>:<size> … ;
+    `call overlap <check_linker> <origin>:<size>:<linker> …` -> none | <i> <k>  (`check_regions_overlap`) ;
+    `call topology <socbus args>` -> none|p2p|shared|crossbar ;
     `call regiondec <origin> <size> <dw> <addrWidth> <a>` -> 0|1 ;
     `call rrnext <policy 0=withdraw|1=ce> <n> <grant> <ce> <req bits as number>` -> next grant. -/
 def call (args : List String) : Option String :=
@@ -19,6 +25,8 @@ def call (args : List String) : Option String :=
     match rest.mapM (·.toNat?) with
     | some [o, sz, dw, aw, a] => some (toString (b2n (regionDec o sz dw aw a)))
     | _ => none
+  | "socglue" :: rest => (parseGlue rest).map showGlue
+  | "overlap" :: rest => callOverlap rest
   | "topology" :: rest =>          -- same arguments as `open socbus`
     (parseSoc rest).map fun c => topologyName c.topology
   | "rrnext" :: rest =>
